@@ -50,3 +50,48 @@ def method_calls_on_attr(model, attr, methods):
                     if isinstance(t, ast.Subscript) and isinstance(t.value, ast.Attribute) and t.value.attr == attr:
                         out.append((q, 'del[]' if isinstance(n, ast.Delete) else '[]=', n.lineno))
     return out
+
+
+def call_graph(model):
+    """name-based call graph: {callee simple name: set of caller qualnames}; receiver-insensitive (conservative)"""
+    cached = getattr(model, '_callers', None)
+    if cached is not None:
+        return cached
+    callers = {}
+    quals = {}
+    for cname, fn, mod in functions(model):
+        q = '%s.%s' % (cname, fn.name) if cname else fn.name
+        quals.setdefault(fn.name, set()).add(q)
+        for n in ast.walk(fn):
+            name = None
+            if isinstance(n, ast.Call):
+                if isinstance(n.func, ast.Attribute):
+                    name = n.func.attr
+                elif isinstance(n.func, ast.Name):
+                    name = n.func.id
+            elif isinstance(n, ast.Attribute) and isinstance(n.ctx, ast.Load):
+                name = n.attr          # properties and bound-method references
+            if name:
+                callers.setdefault(name, set()).add(q)
+    model._callers = (callers, quals)
+    return model._callers
+
+
+def only_reached_through(model, qual, allowed):
+    """True when `qual` is in `allowed`, or it is a helper: it has callers and every chain of callers reaches an allowed
+    function before reaching a function without callers (an entry point).  Lets a write move into an extracted helper."""
+    callers, quals = call_graph(model)
+    allowed = set(allowed)
+    seen = set()
+    work = [qual]
+    while work:
+        q = work.pop()
+        if q in allowed or q in seen:
+            continue
+        seen.add(q)
+        simple = q.split('.')[-1]
+        cs = set(c for c in callers.get(simple, ()) if c != q)
+        if not cs:
+            return False
+        work.extend(cs)
+    return True
